@@ -32,7 +32,7 @@ pub enum ArxmlLexerError {
     InvalidComment,
 }
 
-pub struct ArxmlParserError { pub opaque: u64 }
+pub enum ArxmlParserError { AdditionalDataError, InvalidArxmlFileHeader, VxOther(u64) }
 
 pub enum AutosarDataError {
     LexerError { filename: PathBuf, line: usize, source: ArxmlLexerError },
@@ -238,12 +238,13 @@ R6 = [(r'break (Ok\(\(self\.line, ArxmlEvent::EndOfFile\)\));', lambda m: 'retur
 
 NEXT = FnSpec(
     'next', F, impl=IMPL_B, ret='r', body_sub=R6,
-    sig_sub=[(r'pub\(crate\) fn', 'pub fn')],
+    sig_sub=[(r'pub\(crate\) fn', 'pub fn'), (r'Result<\(usize, ArxmlEvent\), AutosarDataError>', "Result<(usize, ArxmlEvent<'a>), AutosarDataError>")],
     requires=['old(self).inv()'],
     ensures=[LINE_OK,
              'r matches Ok((l, _)) ==> 1 <= l <= 1 + nl(final(self).buffer@)',
              'r matches Err(e) ==> 1 <= err_line(e) <= 1 + nl(final(self).buffer@)',
              'r matches Ok((_, ev)) ==> (ev is EndOfFile || final(self).measure() < old(self).measure())',
+             'r matches Ok((_, ev)) ==> (ev is EndOfFile ==> final(self).bufpos == final(self).buffer.len() && final(self).deferred_end.is_none())',
              'final(self).measure() <= old(self).measure()'],
     loops={0: dict(invariant=['self.inv()', 'self.buffer == old(self).buffer', 'self.deferred_end.is_none()',
                               'self.measure() <= old(self).measure()', 'old(self).deferred_end.is_none()'],
@@ -263,7 +264,7 @@ UNIT = Unit(
     wrap={IMPL_A: "impl<'a> ArxmlLexer<'a>", IMPL_B: "impl<'a> ArxmlLexer<'a>"},
     dropped=['derive/doc/#[error] attributes of ArxmlLexerError, ArxmlEvent; `pub(crate)` visibility -> `pub`',
              'PathBuf is an opaque stand-in (only cloned into error values); AutosarDataError reduced to the LexerError variant',
-             "`impl ArxmlLexer<'_>` is emitted as `impl<'a> ArxmlLexer<'a>` (lifetime elision spelled out)",
+             "`impl ArxmlLexer<'_>` is emitted as `impl<'a> ArxmlLexer<'a>`, and the events returned by `next` carry the buffer's lifetime 'a instead of the lifetime of the `&mut self` borrow (lifetimes have no run-time meaning; needed so that specifications may mention the lexer while an event is alive)",
              'fn error (3 lines) is included verbatim'],
 )
 UNIT.fns.insert(7, FnSpec('error', F, impl=IMPL_B, ret='r', ensures=['err_line(r) == self.line']))
